@@ -1,11 +1,12 @@
 SPECIFICATION Spec
 CONSTANTS
- Configs <- MCQuick
+ Configs <- MCFFListingB
  DevUserLast = FALSE
  DevFirstWins = FALSE
  DevBibMerge = TRUE
  DevSplitAll = FALSE
  DevTmplMerge = FALSE
  DevSkipUserUnknown = FALSE
+ DevIdReuse = FALSE
 INVARIANT StoreIsDeclarative
 CHECK_DEADLOCK FALSE
